@@ -1,0 +1,310 @@
+//! Verification hooks - DO NOT USE!
+//!
+//! This module requires the internal `__verif` feature. It re-exports otherwise private
+//! internals with plain-integer types, and provides thread-local probe/tap slots that are no-ops
+//! unless a verification harness installs a callback on the current thread.
+#![allow(missing_docs)]
+#![allow(clippy::type_complexity)]
+
+use std::cell::RefCell;
+use std::path::Path;
+
+use garble_lang::register_circuit::Circuit;
+use rand::{RngCore, SeedableRng};
+use rand_chacha::ChaCha20Rng;
+
+use crate::{
+    block::Block,
+    channel::Channel,
+    crypto::{AesRng, FIXED_KEY_HASH},
+    mpc::{
+        data_types::{Auth, Delta, Key, Mac, Share},
+        faand,
+        protocol::{_mpc, Context, Preprocessor},
+    },
+    utils::file_or_mem_buf::FileOrMemBuf,
+};
+
+// ---------------------------------------------------------------------------------------------
+// probes (read-only) and taps (read-write), one slot per thread
+// ---------------------------------------------------------------------------------------------
+
+/// A value handed to a probe or tap.
+pub enum Hook<'a> {
+    U128s(&'a mut [u128]),
+    Usizes(&'a mut [usize]),
+    Bytes(&'a mut [u8]),
+    Bools(&'a mut [bool]),
+    BoolVecs(&'a mut [Vec<bool>]),
+}
+
+thread_local! {
+    static SLOT: RefCell<Option<Box<dyn FnMut(&str, Hook<'_>)>>> = const { RefCell::new(None) };
+}
+
+/// Install (or remove) the callback of the current thread.
+pub fn set_hook(f: Option<Box<dyn FnMut(&str, Hook<'_>)>>) {
+    SLOT.with(|s| *s.borrow_mut() = f);
+}
+
+pub(crate) fn hook(name: &str, v: Hook<'_>) {
+    SLOT.with(|s| {
+        if let Ok(mut s) = s.try_borrow_mut()
+            && let Some(f) = s.as_mut()
+        {
+            f(name, v)
+        }
+    });
+}
+
+pub(crate) fn probe_u128s(name: &str, v: &[u128]) {
+    let mut c = v.to_vec();
+    hook(name, Hook::U128s(&mut c));
+}
+
+pub(crate) fn probe_usizes(name: &str, v: &[usize]) {
+    let mut c = v.to_vec();
+    hook(name, Hook::Usizes(&mut c));
+}
+
+pub(crate) fn tap_bool(name: &str, b: bool) -> bool {
+    let mut v = [b];
+    hook(name, Hook::Bools(&mut v));
+    v[0]
+}
+
+// ---------------------------------------------------------------------------------------------
+// preprocessing API with plain-integer share types (C10)
+// ---------------------------------------------------------------------------------------------
+
+#[derive(Clone, Debug, PartialEq, Eq)]
+pub struct PShare {
+    pub bit: bool,
+    /// macs[j] authenticates `bit` under party j's global key
+    pub macs: Vec<u128>,
+    /// keys[j] is the key for party j's bit
+    pub keys: Vec<u128>,
+}
+
+impl From<&Share> for PShare {
+    fn from(s: &Share) -> Self {
+        PShare {
+            bit: s.0,
+            macs: s.1.0.iter().map(|(m, _)| m.0).collect(),
+            keys: s.1.0.iter().map(|(_, k)| k.0).collect(),
+        }
+    }
+}
+
+impl From<&PShare> for Share {
+    fn from(s: &PShare) -> Self {
+        Share(
+            s.bit,
+            Auth(s.macs.iter().zip(&s.keys).map(|(m, k)| (Mac(*m), Key(*k))).collect()),
+        )
+    }
+}
+
+pub struct Rngs {
+    two: Vec<Vec<Option<ChaCha20Rng>>>,
+    multi: ChaCha20Rng,
+}
+
+impl Rngs {
+    /// Next word of the multi-party stream and of each pairwise stream (drawn from clones).
+    pub fn peek(&self) -> (u64, Vec<Vec<Option<u64>>>) {
+        let m = self.multi.clone().next_u64();
+        let t = self
+            .two
+            .iter()
+            .map(|row| row.iter().map(|r| r.clone().map(|mut r| r.next_u64())).collect())
+            .collect();
+        (m, t)
+    }
+    /// Deterministic generators (no coin tossing), for driving one protocol step in isolation.
+    pub fn fixed(n: usize, seed: u64) -> Self {
+        let mut two = vec![vec![None; n]; n];
+        for (a, row) in two.iter_mut().enumerate() {
+            for (b, r) in row.iter_mut().enumerate() {
+                if a < b {
+                    *r = Some(ChaCha20Rng::seed_from_u64(seed ^ ((a as u64) << 8 | b as u64)));
+                }
+            }
+        }
+        Rngs {
+            two,
+            multi: ChaCha20Rng::seed_from_u64(seed ^ 0xffff),
+        }
+    }
+}
+
+fn e<E: std::fmt::Debug>(e: E) -> String {
+    format!("{e:?}")
+}
+
+pub async fn setup_rngs(channel: &impl Channel, i: usize, n: usize) -> Result<Rngs, String> {
+    let two = faand::shared_rng_pairwise(channel, i, n).await.map_err(e)?;
+    let multi = faand::shared_rng(channel, i, n).await.map_err(e)?;
+    Ok(Rngs { two, multi })
+}
+
+pub async fn fashare(
+    channel: &impl Channel,
+    delta: u128,
+    i: usize,
+    n: usize,
+    l: usize,
+    rngs: &mut Rngs,
+) -> Result<Vec<PShare>, String> {
+    let r = faand::fashare((channel, Delta(delta)), i, n, l, &mut rngs.two, &mut rngs.multi)
+        .await
+        .map_err(e)?;
+    Ok(r.iter().map(PShare::from).collect())
+}
+
+pub async fn beaver_aand(
+    channel: &impl Channel,
+    delta: u128,
+    alpha_beta: &[(PShare, PShare)],
+    i: usize,
+    n: usize,
+    rngs: &mut Rngs,
+    abc: &[PShare],
+) -> Result<Vec<PShare>, String> {
+    let ab: Vec<(Share, Share)> = alpha_beta.iter().map(|(a, b)| (a.into(), b.into())).collect();
+    let abc: Vec<Share> = abc.iter().map(Share::from).collect();
+    let r = faand::beaver_aand((channel, Delta(delta)), &ab, i, n, ab.len(), &mut rngs.multi, &abc)
+        .await
+        .map_err(e)?;
+    Ok(r.iter().map(PShare::from).collect())
+}
+
+pub fn bucket_size(l: usize) -> usize {
+    faand::bucket_size(l)
+}
+
+/// The trusted dealer.
+pub async fn fpre(channel: &(impl Channel + Send), parties: usize) -> Result<(), String> {
+    crate::mpc::fpre::fpre(channel, parties).await.map_err(e)
+}
+
+/// `mpc` with the trusted-dealer preprocessor `p_fpre`.
+#[allow(clippy::too_many_arguments)]
+pub async fn mpc_with_dealer(
+    channel: &impl Channel,
+    circuit: &Circuit,
+    inputs: &[bool],
+    p_fpre: usize,
+    p_eval: usize,
+    p_own: usize,
+    p_out: &[usize],
+) -> Result<Vec<bool>, crate::Error> {
+    let ctx = Context::new(
+        channel,
+        circuit,
+        inputs,
+        Preprocessor::TrustedDealer(p_fpre),
+        p_eval,
+        p_own,
+        p_out,
+        None,
+    );
+    _mpc(&ctx).await
+}
+
+// ---------------------------------------------------------------------------------------------
+// FileOrMemBuf<u64> (C19)
+// ---------------------------------------------------------------------------------------------
+
+pub struct Buf(FileOrMemBuf<u64>);
+
+/// Hidden state of the file variant: (file length, OS file offset, bytes still buffered in the writer).
+pub type BufDebug = Option<(u64, u64, usize)>;
+
+impl Buf {
+    pub fn new(dir: Option<&Path>, capacity: usize) -> std::io::Result<Self> {
+        Ok(Buf(FileOrMemBuf::new(dir, capacity)?))
+    }
+    pub fn write_chunk(&mut self, chunk: &[u64]) -> Result<(), String> {
+        self.0.write_chunk(chunk).map_err(e)
+    }
+    /// Iterate item-wise; stop (and drop the iterator) after `take` items if given.
+    pub fn iter_take(&mut self, take: Option<usize>) -> Result<Vec<u64>, String> {
+        let it = self.0.iter().map_err(e)?;
+        let mut out = vec![];
+        for (k, x) in it.enumerate() {
+            if Some(k) == take {
+                break;
+            }
+            out.push(x.map_err(e)?);
+        }
+        Ok(out)
+    }
+    /// Iterate chunk-wise; stop (and drop the iterator) after `take` chunks if given.
+    pub fn chunks_take(&mut self, size: usize, take: Option<usize>) -> Result<Vec<Vec<u64>>, String> {
+        let it = self.0.chunks(size).map_err(e)?;
+        let mut out = vec![];
+        for (k, x) in it.enumerate() {
+            if Some(k) == take {
+                break;
+            }
+            out.push(x.map_err(e)?.into_owned());
+        }
+        Ok(out)
+    }
+    pub fn debug_state(&mut self) -> BufDebug {
+        self.0.verif_debug_state()
+    }
+}
+
+// ---------------------------------------------------------------------------------------------
+// primitives (C20)
+// ---------------------------------------------------------------------------------------------
+
+/// Dispatching transpose (AVX2 where available).
+pub fn transpose_bitmatrix(input: &[u8], output: &mut [u8], rows: usize) {
+    crate::transpose::transpose_bitmatrix(input, output, rows)
+}
+
+pub fn transpose_bitmatrix_portable(input: &[u8], output: &mut [u8], rows: usize) {
+    crate::transpose::verif_portable_transpose_bitmatrix(input, output, rows)
+}
+
+/// Dispatching carry-less multiplication, operands and halves as little-endian u128.
+pub fn clmul(a: u128, b: u128) -> (u128, u128) {
+    let (lo, hi) = Block::from(a).clmul(&Block::from(b));
+    (lo.into(), hi.into())
+}
+
+pub fn clmul_scalar(a: u128, b: u128) -> (u128, u128) {
+    Block::verif_scalar_clmul128(a, b)
+}
+
+pub fn cr_hash_block(x: [u8; 16]) -> [u8; 16] {
+    FIXED_KEY_HASH.cr_hash_block(Block::from(x)).into()
+}
+
+pub fn tccr_hash_block(tweak: [u8; 16], x: [u8; 16]) -> [u8; 16] {
+    FIXED_KEY_HASH.tccr_hash_block(Block::from(tweak), Block::from(x)).into()
+}
+
+pub fn block_from_u128(x: u128) -> [u8; 16] {
+    Block::from(x).into()
+}
+
+pub struct Prg(AesRng);
+
+impl Prg {
+    pub fn from_seed(seed: [u8; 16]) -> Self {
+        Prg(AesRng::from_seed(Block::from(seed)))
+    }
+    pub fn fill_bytes(&mut self, dest: &mut [u8]) {
+        self.0.fill_bytes(dest)
+    }
+    pub fn next_u32(&mut self) -> u32 {
+        self.0.next_u32()
+    }
+    pub fn next_u64(&mut self) -> u64 {
+        self.0.next_u64()
+    }
+}
